@@ -1155,3 +1155,88 @@ func (c *c17) wakeScenario(r *vkit.RNG, idx int) {
 		w.cancel()
 	}
 }
+
+// readersVsWriters runs goroutines that keep calling the pool's read operations (peers, has, len) against
+// goroutines that keep mutating it (add, remove, putOnCooldown, tryGet, clock advances). The only oracle is
+// termination: a closed system in which some call never returns, with an unchanging goroutine dump, is a
+// deadlock. Returns false when a hang was found (the blocked goroutines hold the pool; stop the family).
+func (c *c17) readersVsWriters(r *vkit.RNG, idx int) bool {
+	run := c.run
+	ttl := time.Second
+	clk := c17NewClock()
+	vp := peers.NewVerifPool(ttl, clk, vkit.Pick(r, []int{0, 1, 2, 3}))
+	n := r.Range(3, 8)
+	for p := 0; p < n; p++ {
+		vp.Add(c17ID(p))
+	}
+	readers, writers := r.Range(2, 4), r.Range(2, 4)
+	iters := r.Range(150, 400)
+	var wg sync.WaitGroup
+	for g := 0; g < readers; g++ {
+		wg.Add(1)
+		rr := r.SplitN("reader", g)
+		go func() {
+			defer wg.Done()
+			for i := 0; i < iters; i++ {
+				switch rr.Intn(3) {
+				case 0:
+					for _, id := range vp.Peers() {
+						if c17Idx(id) < 0 {
+							run.Violation("C17 pool peers() returns an unknown peer", map[string]any{"id": string(id)})
+						}
+					}
+				case 1:
+					vp.Has(c17ID(rr.Intn(n)))
+				default:
+					vp.Len()
+				}
+			}
+		}()
+	}
+	for g := 0; g < writers; g++ {
+		wg.Add(1)
+		rw := r.SplitN("writer", g)
+		go func() {
+			defer wg.Done()
+			for i := 0; i < iters; i++ {
+				id := c17ID(rw.Intn(n))
+				switch rw.Intn(4) {
+				case 0:
+					vp.Add(id)
+				case 1:
+					vp.Remove(id)
+				case 2:
+					vp.PutOnCooldown(id)
+				default:
+					vp.TryGet()
+				}
+			}
+		}()
+	}
+	// one goroutine moves the virtual clock (the harness clock is advanced by a single driver): cool-down
+	// expiries then run concurrently with the readers and writers
+	wg.Add(1)
+	go func() {
+		defer wg.Done()
+		for i := 0; i < iters/8; i++ {
+			clk.advance(ttl/3, func(ch <-chan struct{}) bool { return c17Await(ch, c17SoftPool) })
+			runtime.Gosched()
+		}
+	}()
+	done := make(chan struct{})
+	go func() { wg.Wait(); close(done) }()
+	run.Eval(1)
+	run.Count("readers-vs-writers/scenarios", 1)
+	run.Distinct(fmt.Sprintf("rvw|%d|%d|%d|%d", n, readers, writers, iters))
+	v, dump := vkit.WaitStable(done, vkit.StableOpts{Polls: 20, Every: 25 * time.Millisecond, MaxWait: 2 * time.Minute})
+	switch v {
+	case "hang":
+		run.Violation("C17 pool deadlock: concurrent reads (peers/has/len) and writes never return: "+strings.Join(vkit.RepoFrames(dump), " | "),
+			map[string]any{"scenario": idx, "peers": n, "readers": readers, "writers": writers, "dump": tailStr(dump, 5000)})
+		return false
+	case "inconclusive":
+		run.Inconclusive("readers-vs-writers scenario did not finish")
+		return false
+	}
+	return true
+}
